@@ -953,7 +953,7 @@ func (e *SpecEnv) call(x *ECall) TV {
 		if m.Ty != nil {
 			if mt, ok := c.under(m.Ty).(*types.Map); ok {
 				dn, _, _, ds, _, _ := c.mapComps(mt)
-				return specTV(fmt.Sprintf("(select (select %s %s) %s)", compIn(c, e.Heap, dn, ds), m.T, k.T), "Bool")
+				return specTV(fmt.Sprintf("(and (not (= %s 0)) (select (select %s %s) %s))", m.T, compIn(c, e.Heap, dn, ds), m.T, k.T), "Bool")
 			}
 		}
 		return specTV(fmt.Sprintf("(select %s %s)", m.T, k.T), "Bool")
@@ -1126,27 +1126,51 @@ func exprText(x Expr) string {
 	return ""
 }
 
-// addr evaluates &x.f (x a pointer or an engine location) to a location.
+// addr evaluates &x.f (x a pointer, an engine location, or itself a field path) to a location.
 func (e *SpecEnv) addr(x Expr) (*Loc, types.Type) {
 	c := e.C
 	sel, ok := x.(*ESel)
 	if !ok {
 		efail("& needs a field selection")
 	}
-	base := e.eval(sel.X)
 	var l *Loc
 	var target types.Type
-	if base.Loc != nil {
-		l = base.Loc
-		target = c.pathType(l.Ty, l.Path)
-	} else if base.Ty != nil {
-		if p, ok := c.under(base.Ty).(*types.Pointer); ok {
-			l = c.ptrLoc(base.T, p.Elem())
-			target = p.Elem()
+	if inner, ok := sel.X.(*ESel); ok {
+		// is the inner expression a package-qualified name? then evaluate it as a value
+		isPkg := false
+		if id, ok := inner.X.(*EIdent); ok {
+			if _, isVar := e.lookup(id.Name); !isVar && c.findPackage(id.Name, e.Pkg) != nil {
+				isPkg = true
+			}
+		}
+		if !isPkg {
+			bl, bty := e.addr(inner)
+			if p, ok := c.under(bty).(*types.Pointer); ok {
+				t, _ := e.S.loadIn(e.Heap, e.Cells, bl)
+				l = c.ptrLoc(t, p.Elem())
+				target = p.Elem()
+			} else {
+				l, target = bl, bty
+			}
+		}
+	}
+	if l == nil {
+		base := e.eval(sel.X)
+		if base.Loc != nil {
+			l = base.Loc
+			target = c.pathType(l.Ty, l.Path)
+		} else if base.Ty != nil {
+			if p, ok := c.under(base.Ty).(*types.Pointer); ok {
+				l = c.ptrLoc(base.T, p.Elem())
+				target = p.Elem()
+			}
 		}
 	}
 	if l == nil {
 		efail("& of a field of a non-pointer")
+	}
+	if c.structOf(target) == nil {
+		efail("&: %s is not a struct", target)
 	}
 	path := fieldPath(target, sel.Name)
 	if len(path) != 1 {
@@ -1154,6 +1178,7 @@ func (e *SpecEnv) addr(x Expr) (*Loc, types.Type) {
 	}
 	return l.with(PathSel{Field: path[0], Cont: target}), c.structOf(target).Field(path[0]).Type()
 }
+
 
 // Goal is one proof goal: under the extra hypotheses Pre, Goal must hold.
 type Goal struct {
